@@ -26,9 +26,60 @@ Fixpoint dense_before (keys : list (bool * expr)) (me : row) (prev : option row)
       else O                                   (* p is sorted: nothing further is before me *)
   end.
 
+(* ---- range frames beyond Rel.v's domain (one ascending integer key) ----
+   SPECIFICATION (the book only shows one ascending key; this is its reading "a range of VALUES relative to the current
+   row's value, along the sort order", the same way `rows` counts positions along the sort order):
+     bound 0        = up to / from the PEERS of the current row -- the rows equal to it under ALL sort keys; defined for
+                      any number of keys, descending keys, NULL keys, and for no sort at all (every row is a peer);
+     bound n <> 0   = key values up to |n| further along the order: needs exactly ONE key with integer values; along a
+                      DESCENDING key "further" means smaller (range:-1..0 = values k+1 down to k);
+     open bound     = the edge of the partition.
+   Outside that domain (an offset with several keys or none) a range frame has no meaning: the segment is empty. *)
+Definition off_from (keys : list (bool * expr)) (me r : row) (a : Z) : bool :=
+  if a =? 0 then keys_le keys me r
+  else match keys with
+       | [(desc, ke)] => match ev me ke, ev r ke with
+                         | VInt k, VInt x => if desc then x <=? k - a else k + a <=? x
+                         | _, _ => false
+                         end
+       | _ => false
+       end.
+Definition off_to (keys : list (bool * expr)) (me r : row) (b : Z) : bool :=
+  if b =? 0 then keys_le keys r me
+  else match keys with
+       | [(desc, ke)] => match ev me ke, ev r ke with
+                         | VInt k, VInt x => if desc then k - b <=? x else x <=? k + b
+                         | _, _ => false
+                         end
+       | _ => false
+       end.
+Definition range_segx (a b : option Z) (keys : list (bool * expr)) (p : rel) (i : nat) : list nat :=
+  match nth_error p i with
+  | Some me => filter (fun j => match nth_error p j with
+                                | Some r => (match a with Some a => off_from keys me r a | None => true end)
+                                            && (match b with Some b => off_to keys me r b | None => true end)
+                                | None => false end) (seq 0 (length p))
+  | None => []
+  end.
+Definition segx (fr : frame) (keys : list (bool * expr)) (p : rel) (i : nat) : list nat :=
+  match fr with FRange a b => range_segx a b keys p i | _ => seg fr keys p i end.
+
+(* Rel.v's win_applyf with the segment taken from segx (the frame-sensitive functions only; on Rel.v's domain the two
+   agree: Proofs/WindowProofs.v segx_agrees) *)
+Definition win_applyfx (fr : frame) (w : wfn) (keys : list (bool * expr)) (e : expr) (p : rel) (i : nat) : val :=
+  let vals := map (fun r => ev r e) p in
+  let svals := map (fun j => nth j vals VNull) (segx fr keys p i) in
+  match w with
+  | WAgg ASum => match non_null svals with [] => VNull | l => fold_left (arith Add) l (VInt 0) end
+  | WAgg a => agg_apply a svals
+  | WFirst => nth O svals VNull
+  | WLast => nth (pred (length svals)) svals VNull
+  | _ => win_applyf fr w keys e p i
+  end.
+
 Definition win_applyx (fr : frame) (w : wfnx) (keys : list (bool * expr)) (e : expr) (p : rel) (i : nat) : val :=
   match w with
-  | WB w => win_applyf fr w keys e p i
+  | WB w => win_applyfx fr w keys e p i
   | WRankDense =>
       match nth_error p i with
       | Some me => VInt (Z.of_nat (S (dense_before keys me None p)))
